@@ -12,11 +12,17 @@ from .values import (SymVal, Unsupported, fresh, fresh_name, NONEVAL, wf, litera
 from .engine import State, Obligation, truth, coerce, exc_is
 from .symexec import Ctx, Evaluator, read_ref
 from .execs import Executor, Outcome, feasible
-from .contracts import find_function, ContractError, REGISTRY
+from .contracts import find_function, ContractError, REGISTRY, DynamicLoops, loop_shape
 from . import prims as _prims   # noqa: F401
 from . import ghost as _ghost   # noqa: F401  (registers process / scratch primitives)
 
 Z3_TIMEOUT_MS = int(os.environ.get('VERIF_Z3_TIMEOUT_MS', '10000'))
+try:
+    import json as _json
+    LOOP_SHAPES = _json.load(open(os.path.join(os.path.dirname(os.path.dirname(os.path.abspath(__file__))),
+                                               'contract_loop_shapes.json')))
+except Exception:      # noqa
+    LOOP_SHAPES = {}
 CVC5_TIMEOUT_MS = int(os.environ.get('VERIF_CVC5_TIMEOUT_MS', '10000'))
 CVC5_BIN = '/usr/bin/cvc5'
 
@@ -57,6 +63,17 @@ def spec_eval(ctx, ev, state, expr):
 def generate(c, registry=REGISTRY):
     """returns (ctx, info) with ctx.obligations filled"""
     info, fn, cls = find_function(c.qualname)
+    # guard G-S: invariants are keyed by loop ordinal; a function whose loop structure is no longer the
+    # one the contract was written against is reported as "contract out of date" (exit 2), never as
+    # failed obligations of invariants that now sit on the wrong loops
+    want = LOOP_SHAPES.get(c.qualname)
+    if want is not None and c.loops and not isinstance(c.loops, DynamicLoops) \
+            and os.environ.get('VERIF_NO_SHAPE_GUARD') != '1':
+        have = loop_shape(fn)
+        if have != want:
+            raise ContractError(f"{c.qualname}: loop structure changed (contract written for [{want}], "
+                                f"source now has [{have}]): loop invariants are keyed by loop ordinal "
+                                f"(contract out of date)")
     lenient = c.mode == 'slice'
     ctx = Ctx(c.qualname, fn, info, c, registry, lenient=lenient)
     ex = Executor(ctx)
